@@ -199,7 +199,31 @@ def _pym():
     import pymoto as pym
     import pymoto.core_objects as co
     co.get_init_str = lambda: 'pmc'
+    own_arpack()
     return pym
+
+
+_ARPACK_OWNED = False
+
+
+def own_arpack():
+    """ARPACK draws its start vector from an internal random stream whose state depends on all earlier calls in the
+    process; results then differ in the last bits from run to run.  The harness owns this nondeterminism by supplying a
+    fixed generic start vector whenever the code under test does not pass one (patched from outside)."""
+    global _ARPACK_OWNED
+    if _ARPACK_OWNED:
+        return
+    import scipy.sparse.linalg as spsla
+    for name in ('eigsh', 'eigs'):
+        orig = getattr(spsla, name)
+
+        def wrapped(A, *a, _orig=orig, **kw):
+            if kw.get('v0') is None:
+                n = A.shape[0]
+                kw['v0'] = 0.5 + val.pos(n, 97, 0)
+            return _orig(A, *a, **kw)
+        setattr(spsla, name, wrapped)
+    _ARPACK_OWNED = True
 
 
 def _domain(d):
